@@ -510,7 +510,18 @@ func (s *sim) execPH(op Op) {
 }
 
 // deliverPH calls HandleProposedHeader and classifies how the call ended.
+// delivery is one message as it went over the wire (C10 replays the same
+// absolute messages in the crash run).
+type delivery struct {
+	PH   *tmconsensus.ProposedHeader
+	Vote *builtVote
+}
+
 func (s *sim) deliverPH(ph tmconsensus.ProposedHeader) []tmconsensus.HandleProposedHeaderResult {
+	if s.recorder != nil {
+		p := ph
+		s.recorder(delivery{PH: &p})
+	}
 	var res tmconsensus.HandleProposedHeaderResult
 	var pan any
 	cr := s.call(func(ctx context.Context) {
@@ -527,6 +538,9 @@ func (s *sim) deliverPH(ph tmconsensus.ProposedHeader) []tmconsensus.HandlePropo
 // callOutcome turns panics, livelocks and wedges of a call into failures (when
 // the test owns liveness) or aborts; true means the call returned normally.
 func (s *sim) callOutcome(cr *callResult, pan any, name, what string) bool {
+	if cr.crashed {
+		return false
+	}
 	if pan != nil {
 		if s.own.liveness {
 			s.failf(s.pendingFinding, "panic-in-call", "%s(%s) panicked: %v", name, what, pan)
@@ -670,6 +684,10 @@ func (s *sim) voteTrigger(b builtVote) string {
 	}
 	future := h > s.vv.Height || (h == s.vv.Height && r > s.vv.Round+1)
 	pairs, per, short := b.authentic()
+	if s.c10 && h > s.vv.Height && pairs > 0 {
+		// stored as FutureVerified, but a view shift into that height starts from an empty view
+		return "C10-F2"
+	}
 	if h > s.vv.Height && pairs > 0 && (s.c.Cfg.ValChange != 0 || s.altUsed) {
 		// verified against the set its PubKeyHash names and stored for a height whose set may differ
 		return "C09-A26"
@@ -775,6 +793,10 @@ func (s *sim) classifyVote(b builtVote, pairs int) {
 }
 
 func (s *sim) deliverVote(b builtVote) (tmconsensus.HandleVoteProofsResult, bool) {
+	if s.recorder != nil {
+		v := b
+		s.recorder(delivery{Vote: &v})
+	}
 	var res tmconsensus.HandleVoteProofsResult
 	var pan any
 	cr := s.call(func(ctx context.Context) {
@@ -1129,7 +1151,10 @@ func (s *sim) execSMAct(op Op) {
 	if k < 0 {
 		return
 	}
-	_ = i
+	if h == s.cv.Height && r > s.cv.Round && s.skipKnown("C09-A3") {
+		// the state machine went one round ahead (precommit delay) and the mirror then committed the earlier round
+		return
+	}
 	var act tmeil.StateMachineRoundAction
 	switch op.Kind % 3 {
 	case 0:
@@ -1201,6 +1226,9 @@ func (s *sim) execConc(op Op) {
 				continue
 			}
 			s.rememberPH(b)
+			if sub.NS {
+				continue
+			}
 			var res tmconsensus.HandleProposedHeaderResult
 			var pan any
 			cr := s.call(func(ctx context.Context) {
